@@ -235,7 +235,22 @@ func MakeExternalLocationBatch(schema *arrow.Schema, locationURL string, sha256H
 func serializeBatchAsIPC(batch arrow.RecordBatch, meta *arrow.Metadata) ([]byte, error) {
 	var buf bytes.Buffer
 	w := ipc.NewWriter(&buf, ipc.WithSchema(batch.Schema()))
-	if err := w.Write(batch); err != nil {
+	toWrite := batch
+	if meta != nil && meta.Len() > 0 {
+		// Custom metadata handed over next to the batch travels with it: keep
+		// whatever the batch already carries and add the caller's pairs.
+		keys, values := []string{}, []string{}
+		if bwm, ok := batch.(arrow.RecordBatchWithMetadata); ok {
+			keys = append(keys, bwm.Metadata().Keys()...)
+			values = append(values, bwm.Metadata().Values()...)
+		}
+		keys = append(keys, meta.Keys()...)
+		values = append(values, meta.Values()...)
+		withMeta := array.NewRecordBatchWithMetadata(batch.Schema(), batch.Columns(), batch.NumRows(), arrow.NewMetadata(keys, values))
+		defer withMeta.Release()
+		toWrite = withMeta
+	}
+	if err := w.Write(toWrite); err != nil {
 		w.Close()
 		return nil, fmt.Errorf("writing batch to IPC: %w", err)
 	}
@@ -307,7 +322,7 @@ func externalizeBatchCtx(
 	}
 
 	// Serialize to IPC
-	ipcData, err := serializeBatchAsIPC(batch, nil)
+	ipcData, err := serializeBatchAsIPC(batch, &meta)
 	if err != nil {
 		return batch, meta, 0, fmt.Errorf("serializing batch for external storage: %w", err)
 	}
